@@ -53,7 +53,9 @@ def plan(tier):
                  (2, [("dense", 4, 5)], CONF_Q[::2] + CONF_Q[9:], "some"),
                  (3, [("dense", 1, 3)], CONF_Q + CONF_AUTO, "some"),
                  (3, [("near", 2, 2)], CONF_Q[:6], "some"),
-                 (4, [("dense", 1, 2)], CONF_Q4, "some")]
+                 (4, [("dense", 1, 2)], CONF_Q4, "some"),
+                 # non-zero order / directionality values need clock >= 3 (DESIGN 2.1)
+                 (4, [("bounded", 1, 3, 3)], CONF_Q4, "some")]
     else:
         specs = [(2, [("dense", 1, 4)], CONF_T, "all"), (2, [("dense", 5, 6)], CONF_T, "some"),
                  (3, [("dense", 1, 3)], CONF_T, "all"), (3, [("dense", 4, 4)], CONF_Q, "some"),
